@@ -53,15 +53,50 @@ Definition str_true := [84; 114; 117; 101].
 Definition str_false := [70; 97; 108; 115; 101].
 Definition str_none := [78; 111; 110; 101].      (* "None" *)
 
-Definition show (v : value) : list Z :=
+Definition str_undefined := [117; 110; 100; 101; 102; 105; 110; 101; 100].      (* "undefined" *)
+
+Fixpoint join_with (sep : list Z) (l : list (list Z)) : list Z :=
+  match l with
+  | [] => []
+  | [x] => x
+  | x :: r => x ++ sep ++ join_with sep r
+  end.
+
+(* value/mod.rs::python_string_debug_fmt: the quote is " when the string has a ' and no ", else ';
+   the quote, the backslash, \n \r \t are escaped, other control characters print as \xNN *)
+Definition hex_digit (d : Z) : Z := if d <? 10 then 48 + d else 87 + d.
+Definition repr_char (quote c : Z) : list Z :=
+  if c =? quote then [92; c]
+  else if c =? 92 then [92; 92]
+  else if c =? 10 then [92; 110]
+  else if c =? 13 then [92; 114]
+  else if c =? 9 then [92; 116]
+  else if (c <? 32) || ((127 <=? c) && (c <=? 159)) then [92; 120; hex_digit (c / 16); hex_digit (c mod 16)]
+  else [c].
+Definition repr_str (s : list Z) : list Z :=
+  let quote := if existsb (Z.eqb 39) s && negb (existsb (Z.eqb 34) s) then 34 else 39 in
+  quote :: flat_map (repr_char quote) s ++ [quote].
+
+(* impl Debug for Value: what a value looks like inside a printed list or map *)
+Fixpoint repr (v : value) : list Z :=
   match v with
-  | VUndef | VSilent => []
+  | VUndef | VSilent => str_undefined
   | VNone => str_none
   | VBool true => str_true
   | VBool false => str_false
   | VInt z => show_int z
+  | VStr _ s => repr_str s
+  | VList l => 91 :: join_with [44; 32] (map repr l) ++ [93]                                   (* [a, b] *)
+  | VMap kvs => 123 :: join_with [44; 32] (map (fun '(k, x) => repr k ++ 58 :: 32 :: repr x) kvs) ++ [125]   (* {k: v} *)
+  | _ => [63]          (* macros / loop objects / functions are never printed by the generators *)
+  end.
+
+(* impl Display for Value *)
+Definition show (v : value) : list Z :=
+  match v with
+  | VUndef | VSilent => []
   | VStr _ s => s
-  | _ => [63]          (* lists / macros / loop objects are never printed by the generators *)
+  | _ => repr v
   end.
 
 Definition escape_char (c : Z) : list Z :=
@@ -91,6 +126,7 @@ Definition truthy (v : value) : bool :=
   | VInt z => negb (z =? 0)
   | VStr _ s => match s with [] => false | _ => true end
   | VList l => match l with [] => false | _ => true end
+  | VMap kvs => match kvs with [] => false | _ => true end
   | VMacro _ _ | VLoop _ _ | VFunc _ => true
   end.
 
@@ -132,6 +168,50 @@ Definition do_bin (op : binop) (a b : value) : outcome value :=
   | _, _, _ => Err E_InvalidOperation
   end.
 
+Fixpoint list_ltb (x y : list Z) : bool :=
+  match x, y with
+  | _, [] => false
+  | [], _ :: _ => true
+  | a :: x, b :: y => if a <? b then true else if b <? a then false else list_ltb x y
+  end.
+
+(* ordering (impl Ord for Value): by kind first - undefined < none < bool < number < string < seq < map -,
+   then within the kind (sequences, maps and the bool/number mix are not generated as operands of <) *)
+Definition kind_rank (v : value) : Z :=
+  match v with
+  | VUndef | VSilent => 0 | VNone => 1 | VBool _ => 2 | VInt _ => 3 | VStr _ _ => 4 | VList _ => 5 | VMap _ => 6 | _ => 7
+  end.
+Definition value_ltb (a b : value) : bool :=
+  match a, b with
+  | VInt x, VInt y => x <? y
+  | VStr _ x, VStr _ y => list_ltb x y
+  | VBool x, VBool y => negb x && y
+  | _, _ => kind_rank a <? kind_rank b
+  end.
+
+(* ---- maps (ValueMap = BTreeMap<Value, Value>, the build without feature preserve_order) ----
+   Key identity is the ORDER's equality (a bool key and an int key are different keys although
+   `true == 1`); the keys of the fragment are scalars (strings, ints, bools, none). *)
+Definition key_eqb (a b : value) : bool := negb (value_ltb a b) && negb (value_ltb b a).
+
+(* BTreeMap::insert: a new key goes to its place in the order, an existing key keeps its place (and the
+   key object) and takes the new value - so of duplicate keys in a literal the last value wins *)
+Fixpoint map_insert (k v : value) (m : list (value * value)) : list (value * value) :=
+  match m with
+  | [] => [(k, v)]
+  | (k', v') :: r =>
+      if value_ltb k k' then (k, v) :: m
+      else if value_ltb k' k then (k', v') :: map_insert k v r
+      else (k', v) :: r
+  end.
+Definition map_of_pairs (ps : list (value * value)) : list (value * value) :=
+  fold_left (fun m p => map_insert (fst p) (snd p) m) ps [].
+Fixpoint map_get (k : value) (m : list (value * value)) : option value :=
+  match m with
+  | [] => None
+  | (k', v) :: r => if key_eqb k k' then Some v else map_get k r
+  end.
+
 Fixpoint value_eqb (a b : value) : bool :=
   match a, b with
   | VUndef, VUndef | VUndef, VSilent | VSilent, VUndef | VSilent, VSilent | VNone, VNone => true
@@ -147,34 +227,22 @@ Fixpoint value_eqb (a b : value) : bool :=
          | p :: x, q :: y => value_eqb p q && go x y
          | _, _ => false
          end) x y
+  | VMap x, VMap y =>
+      (* same number of entries, and every entry of the left map has an equal value under its key in the right one *)
+      Nat.eqb (length x) (length y) &&
+      (fix go (x : list (value * value)) : bool :=
+         match x with
+         | [] => true
+         | (k, v1) :: x' => match map_get k y with Some v2 => value_eqb v1 v2 | None => false end && go x'
+         end) x
   | _, _ => false
-  end.
-
-Fixpoint list_ltb (x y : list Z) : bool :=
-  match x, y with
-  | _, [] => false
-  | [], _ :: _ => true
-  | a :: x, b :: y => if a <? b then true else if b <? a then false else list_ltb x y
-  end.
-
-(* ordering (impl Ord for Value): by kind first - undefined < none < bool < number < string < seq -,
-   then within the kind (sequences and the bool/number mix are not generated) *)
-Definition kind_rank (v : value) : Z :=
-  match v with
-  | VUndef | VSilent => 0 | VNone => 1 | VBool _ => 2 | VInt _ => 3 | VStr _ _ => 4 | VList _ => 5 | _ => 6
-  end.
-Definition value_ltb (a b : value) : bool :=
-  match a, b with
-  | VInt x, VInt y => x <? y
-  | VStr _ x, VStr _ y => list_ltb x y
-  | VBool x, VBool y => negb x && y
-  | _, _ => kind_rank a <? kind_rank b
   end.
 
 Definition contains (container item : value) : outcome bool :=
   match container with
   | VUndef | VSilent => Ok false
   | VList l => Ok (existsb (fun x => value_eqb x item) l)
+  | VMap kvs => Ok (match map_get item kvs with Some _ => true | None => false end)      (* a key of the map *)
   | _ => Err E_InvalidOperation
   end.
 
@@ -209,6 +277,14 @@ Definition idx_list (l : list value) (i : Z) : option value :=
   let j := if i <? 0 then i + n else i in
   if (0 <=? j) && (j <? n) then nth_error l (Z.to_nat j) else None.
 
+(* Value::get_item_opt: sequences by (possibly negative) index, maps by key *)
+Definition get_item_opt (x k : value) : option value :=
+  match x with
+  | VList l => match k with VInt z => idx_list l z | _ => None end
+  | VMap kvs => map_get k kvs
+  | _ => None
+  end.
+
 Definition strv (v : value) : option (bool * list Z) := match v with VStr b s => Some (b, s) | _ => None end.
 
 
@@ -236,13 +312,6 @@ Definition replace_s (h needle rep : list Z) : list Z :=
   match needle with
   | [] => rep ++ flat_map (fun ch => ch :: rep) h       (* an empty pattern matches between all characters *)
   | _ => replace_go needle rep 0 h
-  end.
-
-Fixpoint join_with (sep : list Z) (l : list (list Z)) : list Z :=
-  match l with
-  | [] => []
-  | [x] => x
-  | x :: r => x ++ sep ++ join_with sep r
   end.
 
 (* StringInput: the string a value is coerced to, with its safe bit; undefined is rejected under the strict modes *)
@@ -274,6 +343,7 @@ Definition do_filter (m : ubehav) (esc : bool) (f : name) (v : value) (args : li
     match v with
     | VList l => Ok (VInt (lenZ l))
     | VStr _ s => Ok (VInt (lenZ s))
+    | VMap kvs => Ok (VInt (lenZ kvs))
     | _ => Err E_InvalidOperation
     end
   else if f =? F_default then
@@ -312,7 +382,10 @@ Definition do_filter (m : ubehav) (esc : bool) (f : name) (v : value) (args : li
     (* argtypes.rs::StringInput::preserve_safety: the result keeps the operand's safe bit *)
     Ok (VStr (match v with VStr b _ => b | _ => false end) r))
   else if f =? F_first then
-    match v with VList (x :: _) => Ok x | VList [] => Ok VUndef | _ => Err E_InvalidOperation end
+    match v with
+    | VList (x :: _) => Ok x | VList [] => Ok VUndef
+    | VMap ((k, _) :: _) => Ok k | VMap [] => Ok VUndef       (* the first key; `last` refuses maps (filters.rs::last: sequences and iterables only) *)
+    | _ => Err E_InvalidOperation end
   else if f =? F_last then
     match v with VList l => Ok (match rev l with x :: _ => x | [] => VUndef end) | _ => Err E_InvalidOperation end
   else if f =? F_replace then
@@ -351,6 +424,7 @@ Definition do_filter (m : ubehav) (esc : bool) (f : name) (v : value) (args : li
         bind (match v with
               | VList l => Ok l
               | VStr _ s => Ok (map (fun ch => VStr false [ch]) s)      (* a string iterates over its characters *)
+              | VMap kvs => Ok (map fst kvs)                            (* a map iterates over its keys *)
               | VUndef | VSilent | VNone => Ok []
               | _ => Err E_InvalidOperation
               end) (fun items =>
@@ -382,8 +456,16 @@ Definition do_filter (m : ubehav) (esc : bool) (f : name) (v : value) (args : li
     match v with
     | VList l => Ok (VList l)
     | VStr _ s => Ok (VList (map (fun ch => VStr false [ch]) s))
+    | VMap kvs => Ok (VList (map fst kvs))
     | VUndef => if u_strictish m then Err E_InvalidOperation else Ok (VList [])
     | VSilent | VNone => Ok (VList [])
+    | _ => Err E_InvalidOperation
+    end
+  else if f =? F_items then
+    (* the [key, value] pairs in map order (the engine yields 2-tuples: same items, printed with parentheses -
+       the fragment only unpacks them) *)
+    match v with
+    | VMap kvs => Ok (VList (map (fun '(k, x) => VList [k; x]) kvs))
     | _ => Err E_InvalidOperation
     end
   else Err E_UnknownFilter.
@@ -394,6 +476,7 @@ Definition do_test (t : name) (v : value) : outcome bool :=
   else if t =? T_none then Ok (match v with VNone => true | _ => false end)
   else if t =? T_odd then match v with VInt z => Ok (Z.odd z) | _ => Ok false end      (* tests.rs: not an integer = false *)
   else if t =? T_even then match v with VInt z => Ok (Z.even z) | _ => Ok false end
+  else if t =? T_mapping then Ok (match v with VMap _ => true | _ => false end)
   else Err E_UnknownTest.
 
 Definition loop_attr (idx len : Z) (a : name) : option value :=
@@ -405,6 +488,14 @@ Definition loop_attr (idx len : Z) (a : name) : option value :=
   else if a =? A_first then Some (VBool (idx =? 0))
   else if a =? A_last then Some (VBool (idx =? len - 1))
   else None.
+
+(* Value::get_attr_fast: `loop.<field>`, `map.<key>` (the key is the attribute name as a string) *)
+Definition get_attr_opt (x : value) (a : name) : option value :=
+  match x with
+  | VLoop i n => loop_attr i n a
+  | VMap kvs => map_get (VStr false (attr_str a)) kvs
+  | _ => None
+  end.
 
 Fixpoint range_list (fuel : nat) (i n : Z) : list value :=
   match fuel with
@@ -566,11 +657,24 @@ Definition if_arms (m : ubehav) (ev : st -> expr -> outcome (value * st)) (ex : 
         if b then ex s1 body else go s1 r))
     end.
 
+(* vm/mod.rs::unpack_list: any iterable OBJECT unpacks (a list into its items, a map into its keys);
+   strings and the other primitives do not *)
+Definition unpack_items (v : value) : option (list value) :=
+  match v with
+  | VList l => Some l
+  | VMap kvs => Some (map fst kvs)
+  | _ => None
+  end.
+
+(* compile_assignment: StoreLocal | UnpackList(2); StoreLocal; StoreLocal *)
 Definition bind_target (tgt : target) (s : st) (item : value) : outcome st :=
-  match tgt, item with
-  | TVar x, _ => Ok (store s x item)
-  | TPair x y, VList [a; b] => Ok (store (store s x a) y b)
-  | TPair _ _, _ => Err E_CannotUnpack
+  match tgt with
+  | TVar x => Ok (store s x item)
+  | TPair x y =>
+      match unpack_items item with
+      | Some [a; b] => Ok (store (store s x a) y b)
+      | _ => Err E_CannotUnpack
+      end
   end.
 
 (* the loop filter runs in a scope of its own, once per item *)
@@ -603,11 +707,22 @@ Definition loop_items (ex : st -> list stmt -> outcome (signal * st)) (tgt : tar
         end))
     end.
 
-Definition with_binds (ev : st -> expr -> outcome (value * st)) : st -> list (name * expr) -> outcome st :=
-  fix go (s : st) (l : list (name * expr)) : outcome st :=
+(* evaluate the keys and values of a map literal in source order: k1 v1 k2 v2 .. *)
+Definition map_eval_pairs (ev : st -> expr -> outcome (value * st)) : st -> list (expr * expr) -> outcome (list (value * value) * st) :=
+  fix go (s : st) (l : list (expr * expr)) : outcome (list (value * value) * st) :=
+    match l with
+    | [] => Ok ([], s)
+    | (ke, ve) :: r =>
+        bind (ev s ke) (fun '(k, s1) => bind (ev s1 ve) (fun '(v, s2) =>
+        bind (go s2 r) (fun '(kvs, s3) => Ok ((k, v) :: kvs, s3))))
+    end.
+
+(* the assignments of a `with`: each right-hand side is evaluated completely, then its target is bound *)
+Definition with_binds (ev : st -> expr -> outcome (value * st)) : st -> list (target * expr) -> outcome st :=
+  fix go (s : st) (l : list (target * expr)) : outcome st :=
     match l with
     | [] => Ok s
-    | (x, e) :: r => bind (ev s e) (fun '(v, s1) => go (store s1 x v) r)
+    | (t, e) :: r => bind (ev s e) (fun '(v, s1) => bind (bind_target t s1 v) (fun s2 => go s2 r))
     end.
 
 (* ---- the interpreter ---- *)
@@ -627,6 +742,7 @@ Fixpoint eval (fuel : nat) (esc : bool) (s : st) (e : expr) {struct fuel} : outc
     | EConst LNone => Ok (VNone, s)
     | EVar x => let '(v, s1) := lookup c s x in Ok (match v with Some v => v | None => VUndef end, s1)
     | EList items => bind (eval_list s items) (fun '(vs, s1) => Ok (VList vs, s1))
+    | EMap pairs => bind (map_eval_pairs (eval fuel esc) s pairs) (fun '(kvs, s1) => Ok (VMap (map_of_pairs kvs), s1))
     | ENeg a => bind (eval fuel esc s a) (fun '(v, s1) =>
                   match v with VInt z => Ok (VInt (- z), s1) | _ => Err E_InvalidOperation end)
     | ENot a => bind (eval fuel esc s a) (fun '(v, s1) => bind (u_is_true m v) (fun b => Ok (VBool (negb b), s1)))
@@ -648,13 +764,13 @@ Fixpoint eval (fuel : nat) (esc : bool) (s : st) (e : expr) {struct fuel} : outc
                     else match f with Some f => eval fuel esc s1 f | None => Ok (VSilent, s1) end))
     | EItem a i =>
         bind (eval fuel esc s a) (fun '(x, s1) => bind (eval fuel esc s1 i) (fun '(k, s2) =>
-          match (match x, k with VList l, VInt z => idx_list l z | _, _ => None end) with
+          match get_item_opt x k with
           | Some v => Ok (v, s2)
           | None => bind (u_handle_undefined m (is_undef x)) (fun v => Ok (v, s2))
           end))
     | EAttr a attr =>
         bind (eval fuel esc s a) (fun '(x, s1) =>
-          match (match x with VLoop i n => loop_attr i n attr | _ => None end) with
+          match get_attr_opt x attr with
           | Some v => Ok (v, s1)
           | None => bind (u_handle_undefined m (is_undef x)) (fun v => Ok (v, s1))
           end)
@@ -723,6 +839,7 @@ with exec (fuel : nat) (esc : bool) (s : st) (t : stmt) {struct fuel} : outcome 
         bind (match iv with
               | VList l => Ok l
               | VStr _ t => Ok (map (fun ch => VStr false [ch]) t)     (* a string iterates over its characters *)
+              | VMap kvs => Ok (map fst kvs)                           (* a map iterates over its keys, in map order *)
               | VUndef => if u_strictish m then Err E_UndefinedError else Ok []
               | VSilent => Ok []
               | _ => Err E_InvalidOperation end) (fun items =>
@@ -737,7 +854,9 @@ with exec (fuel : nat) (esc : bool) (s : st) (t : stmt) {struct fuel} : outcome 
         | [], Some eb => exec_list fuel esc s6 eb
         | _, _ => Ok (SigNormal, s6)
         end))))
-    | SSet x e => bind (eval fuel esc s e) (fun '(v, s1) => Ok (SigNormal, store s1 x v))
+    | SSet tgt e =>
+        (* the right-hand side is evaluated completely before any target is bound *)
+        bind (eval fuel esc s e) (fun '(v, s1) => bind (bind_target tgt s1 v) (fun s2 => Ok (SigNormal, s2)))
     | SSetBlock x body flt =>
         bind (capture esc s body) (fun '(sg, txt, s1) =>
         match sg with
